@@ -3,8 +3,13 @@ package main
 import (
 	"encoding/json"
 	"fmt"
+	"math/big"
+	"reflect"
 	"sort"
 	"strings"
+
+	"github.com/zenon-network/go-zenon/chain/nom"
+	"github.com/zenon-network/go-zenon/rpc/api/embedded"
 
 	g "github.com/zenon-network/go-zenon/chain/genesis/mock"
 	"github.com/zenon-network/go-zenon/common/types"
@@ -83,6 +88,16 @@ func rpcHistory(c *Ctx, id int) {
 	n := NewNode()
 	defer n.Stop()
 	produceTraffic(c, n, 60+c.R.Intn(60))
+	// legal but unusual blocks: a non-zero nonce on a block that claims no proof-of-work (the nonce is hashed, not checked)
+	for k := 0; k < 6; k++ {
+		from := []types.Address{g.User1.Address, g.User2.Address, g.User3.Address}[k%3]
+		tpl := &nom.AccountBlock{BlockType: nom.BlockTypeUserSend, Address: from, ToAddress: g.User4.Address, TokenStandard: types.ZnnTokenStandard, Amount: big.NewInt(int64(k))}
+		c.R.Read(tpl.Nonce.Data[:])
+		if _, err := n.Submit(tpl); err == nil {
+			c.Hit("nonzero-nonce-block")
+		}
+	}
+	n.Momentum()
 	// leave some blocks unconfirmed and some sends unreceived
 	l := api.NewLedgerApi(n.Z)
 	H := n.Height()
@@ -334,7 +349,157 @@ func rpcHistory(c *Ctx, id int) {
 			c.Hit("unreceived")
 		}
 	}
-	_ = sort.Strings
+	// ---- embedded-contract list getters: paging with any page size yields the one-big-page sequence, each element once
+	pagers := map[string]func(i, k uint32) (interface{}, error){
+		"embedded.pillar.getAll":             func(i, k uint32) (interface{}, error) { return embedded.NewPillarApi(n.Z, true).GetAll(i, k) },
+		"embedded.token.getAll":              func(i, k uint32) (interface{}, error) { return embedded.NewTokenApi(n.Z).GetAll(i, k) },
+		"embedded.plasma.getEntriesByAddress": func(i, k uint32) (interface{}, error) { return embedded.NewPlasmaApi(n.Z).GetEntriesByAddress(g.User1.Address, i, k) },
+		"embedded.stake.getEntriesByAddress":  func(i, k uint32) (interface{}, error) { return embedded.NewStakeApi(n.Z).GetEntriesByAddress(g.User1.Address, i, k) },
+		"embedded.sentinel.getAllActive":      func(i, k uint32) (interface{}, error) { return embedded.NewSentinelApi(n.Z).GetAllActive(i, k) },
+	}
+	names := make([]string, 0, len(pagers))
+	for k := range pagers {
+		names = append(names, k)
+	}
+	sort.Strings(names)
+	elems := func(res interface{}) ([]string, bool) {
+		v := reflect.ValueOf(res)
+		if v.Kind() == reflect.Ptr {
+			if v.IsNil() {
+				return nil, false
+			}
+			v = v.Elem()
+		}
+		lf := v.FieldByName("List")
+		if !lf.IsValid() || lf.Kind() != reflect.Slice {
+			return nil, false
+		}
+		out := make([]string, lf.Len())
+		for i := 0; i < lf.Len(); i++ {
+			b, _ := json.Marshal(lf.Index(i).Interface())
+			out[i] = string(b)
+		}
+		return out, true
+	}
+	for _, name := range names {
+		f := pagers[name]
+		var big interface{}
+		var err error
+		if p := safely(func() { big, err = f(0, 1024) }); p != "" || err != nil {
+			fail("C18: %s(0,1024) fails: %v %s", name, err, p)
+			continue
+		}
+		all, ok := elems(big)
+		if !ok {
+			continue
+		}
+		for _, k := range []uint32{1, 2, 3, 7} {
+			var seq []string
+			for i := uint32(0); i < uint32(len(all))+3; i++ {
+				var res interface{}
+				if p := safely(func() { res, err = f(i, k) }); p != "" || err != nil {
+					fail("C18: %s(%d,%d) fails: %v %s", name, i, k, err, p)
+					break
+				}
+				page, _ := elems(res)
+				if uint32(len(page)) > k {
+					fail("C18: %s(%d,%d) returns %d elements, more than the page size", name, i, k, len(page))
+				}
+				seq = append(seq, page...)
+			}
+			if strings.Join(seq, "|") != strings.Join(all, "|") {
+				d := 0
+				for d < len(seq) && d < len(all) && seq[d] == all[d] {
+					d++
+				}
+				a, b := "<none>", "<none>"
+				if d < len(seq) {
+					a = seq[d]
+				}
+				if d < len(all) {
+					b = all[d]
+				}
+				fail("C18: paging through %s with page size %d yields %d elements, one page of 1024 yields %d; first difference at position %d: paged %.160s, single page %.160s", name, k, len(seq), len(all), d, a, b)
+			}
+			c.Hit("embedded-sweep")
+		}
+	}
 	c.Hit("history")
+	if id%3 == 0 {
+		rpcManyUnreceived(c, id)
+	}
+}
+
+// rpcManyUnreceived: an address with more pending sends than the unreceived query window (500), one of which is already
+// received by an unconfirmed block in the pool. The pages (10 x 50) may show at most the window; whatever is not shown
+// must be announced by More=true, every shown block is really unreceived, nothing is shown twice.
+func rpcManyUnreceived(c *Ctx, id int) {
+	n := NewNode()
+	defer n.Stop()
+	l := api.NewLedgerApi(n.Z)
+	fail := func(format string, a ...interface{}) { c.Fail("rpc run=%d many-unreceived: %s", id, fmt.Sprintf(format, a...)) }
+	to := g.User2.Address
+	total := 498 + c.R.Intn(8)
+	senders := []types.Address{g.User1.Address, g.User3.Address, g.User4.Address, g.User5.Address, g.Pillar1.Address, g.Pillar2.Address}
+	sent := 0
+	for sent < total {
+		for k := 0; k < 90 && sent < total; k++ {
+			if _, err := n.Submit(&nom.AccountBlock{BlockType: nom.BlockTypeUserSend, Address: senders[sent%len(senders)], ToAddress: to, TokenStandard: types.ZnnTokenStandard, Amount: big.NewInt(1)}); err != nil {
+				fail("send refused: %v", err)
+				return
+			}
+			sent++
+		}
+		if _, err := n.Momentum(); err != nil {
+			fail("momentum: %v", err)
+			return
+		}
+	}
+	st := n.Chain().GetFrontierMomentumStore()
+	pend, _ := st.GetAccountMailbox(to).GetUnreceivedAccountBlockHashes(100000)
+	if len(pend) != total {
+		fail("setup: %d pending, expected %d", len(pend), total)
+		return
+	}
+	// receive 0..2 of them, unconfirmed (pool only)
+	recvd := map[types.Hash]bool{}
+	for k := 0; k < c.R.Intn(3); k++ {
+		h := pend[c.R.Intn(minInt(len(pend), 500))]
+		if recvd[h] {
+			continue
+		}
+		if _, err := n.Submit(&nom.AccountBlock{BlockType: nom.BlockTypeUserReceive, Address: to, FromBlockHash: h}); err == nil {
+			recvd[h] = true
+		}
+	}
+	unreceived := total - len(recvd)
+	shown := map[types.Hash]int{}
+	more := false
+	count := -1
+	for i := uint32(0); i < 10; i++ {
+		res, err := l.GetUnreceivedBlocksByAddress(to, i, 50)
+		if err != nil {
+			fail("GetUnreceivedBlocksByAddress(%d,50): %v", i, err)
+			return
+		}
+		for _, b := range res.List {
+			shown[b.Hash]++
+			if recvd[b.Hash] {
+				fail("C18: GetUnreceivedBlocksByAddress lists %s, which an unconfirmed block of the account already receives", h8(b.Hash))
+			}
+		}
+		more = more || res.More
+		count = res.Count
+	}
+	for h, k := range shown {
+		if k > 1 {
+			fail("C18: unreceived block %s appears on %d pages", h8(h), k)
+		}
+	}
+	c.Emit("rpc-unreceived-many %d %d | shown=%d more=%v", total, len(recvd), len(shown), more)
+	c.Hit(fmt.Sprintf("many-unreceived-more-%v", more))
+	if len(shown) < unreceived && !more {
+		fail("C18: %d sends to the account are unreceived (%d pending, %d received by unconfirmed blocks), the 10 pages show %d of them (count=%d) and More=false: %d unreceived blocks appear on no page and are not announced", unreceived, total, len(recvd), len(shown), count, unreceived-len(shown))
+	}
 }
 
